@@ -16,7 +16,9 @@ import (
 // one": after loading, a run of a loaded script on a private point and a parse of another
 // source never store into memory reachable from the loaded scripts (their syntax trees, the
 // bound use() targets, cached grok patterns), from the function tables or from any
-// package-level variable. The engine's ownership monitor (verifnd.Freeze) reports such stores.
+// package-level variable. The engine's ownership monitor (verifnd.Freeze) reports such stores
+// (except stores made while a sync.Mutex / RWMutex is held or inside sync.Once.Do, and
+// sync/atomic operations), and any access to an object after it was handed to a sync.Pool.
 
 var vsScripts = []map[string]string{
 	{ // expressions, collections, control flow, scoping
@@ -32,6 +34,9 @@ var vsScripts = []map[string]string{
 		"a.p": "x = 1\nuse(\"b.p\")\nadd_key(after_b, x)\nuse(\"c.p\")\nadd_key(never, 1)\n",
 		"b.p": "x = 2\nadd_key(from_b, x)\nuse(\"c.p\")\n",
 		"c.p": "add_key(from_c, 3)\nif from_b == 2 { exit() }\nadd_key(c_end, 1)\n",
+	},
+	{ // extraction builtins: pattern tables, compiled patterns, zone tables, XPath cache, obfuscator
+		"a.p": "add_pattern(\"_w\", \"[a-z]+\")\nif true {\n  add_pattern(\"_n\", \"\\\\d+\")\n  grok(_, \"%{_w:w} %{_n:n:int}\")\n}\ngrok(_, \"%{_w:w2}\")\nadd_key(ts, \"2021-12-02 11:55:34\")\ndefault_time(ts, \"+8\")\nadd_key(ts2, \"2021-07-20 18:00:00\")\ndefault_time(ts2, \"Asia/Tokyo\")\nadd_key(ts3, \"not a time\")\ndefault_time(ts3)\nadd_key(n2, 1610960605)\ndatetime(n2, \"s\", \"RFC3339\")\nadd_key(x, \"<a><b>t</b></a>\")\nxml(x, \"/a/b/text()\", xb)\nxml(x, \"/a/b/text()\", xb2)\nadd_key(q, \"select a from t where b = 3\")\nsql_cover(q)\n",
 	},
 	{ // run-time error inside a loop in a callee
 		"a.p": "for i in [1, 2] { use(\"b.p\") }\n",
